@@ -17,6 +17,7 @@ def run(check, ctx):
     repo = ctx.repo
     foreign_handles(check, repo)
     handle_pairing(check, repo, ctx.cdb)
+    rawlib_arity(check, repo, ctx.cdb)
     ffi_argument_lifetime(check, repo)
     buffer_request_flags(check, repo)
     # ---- raw pointers taken with .get() must not be held across a re-binding of the owner -------------
@@ -240,6 +241,129 @@ def handle_pairing(check, repo, cdb):
     check.count("constructor_destructor_pairs", npairs)
     if nsites < 45:
         raise AnalysisError("only %d SmartPointer sites found" % nsites)
+
+
+def rawlib_arity(check, repo, cdb):
+    """The point classes call the native library of *their curve* through `self._curve.rawlib.<op>(...)`; the five
+    Weierstrass / Edwards libraries and the two Montgomery ones have different prototypes (new_point takes x and y, or
+    x only).  For every (point class, curve) pair the constructor is interpreted over a recording library: either it
+    refuses the curve with ValueError before any native call, or every native call it and the other methods make has
+    exactly the number of arguments of the C prototype bound by that curve's EcLib class (and the operation exists).
+    A call with one argument too many makes the callee read a length as a pointer."""
+    from ..absint import Interp
+    from ..absstate import State
+    from ..absval import ABuiltin, AObj, UNK
+    PT = "Crypto.PublicKey._point"
+    mod = repo.module(PT)
+    F = cdb.functions()
+    # CurveID name -> value, and -> the function that builds the curve
+    ids = {}
+    for b in repo.cls(mod, "CurveID").body:
+        if isinstance(b, ast.Assign) and isinstance(b.value, ast.Constant):
+            ids[b.targets[0].id] = b.value.value
+    builders = {}
+    load = repo.func(mod, "_Curves.load")
+    last = {}
+    for n in ast.walk(load):
+        if isinstance(n, ast.Assign) and isinstance(n.value, ast.Call) and isinstance(n.value.func, ast.Attribute) and isinstance(n.targets[0], ast.Name):
+            last[n.targets[0].id] = (norm(n.value.func.value), n.value.func.attr)
+        if isinstance(n, ast.Assign) and isinstance(n.targets[0], ast.Attribute) and n.targets[0].attr == "id" and isinstance(n.value, ast.Attribute):
+            v = n.targets[0].value
+            if isinstance(v, ast.Name) and v.id in last:
+                builders[n.value.attr] = last[v.id]
+    if len(builders) < 9:
+        raise AnalysisError("only %d curve builders found in _Curves.load" % len(builders))
+    libs = {}
+    for cname, (m, fname) in sorted(builders.items()):
+        cm = repo.module("Crypto.PublicKey." + m)
+        fn = repo.func(cm, fname)
+        ecl = [c for c in ast.walk(fn) if isinstance(c, ast.ClassDef) and c.name == "EcLib"] or [c for c in cm.tree.body if isinstance(c, ast.ClassDef) and c.name == "EcLib"]
+        if not ecl:
+            raise AnalysisError("no EcLib class for %s" % cname)
+        ops = {}
+        for b in ecl[0].body:
+            if isinstance(b, ast.Assign) and isinstance(b.value, ast.Attribute) and isinstance(b.targets[0], ast.Name):
+                ops[b.targets[0].id] = b.value.attr
+        libs[cname] = ops
+
+    def nparams(sym):
+        c = F.get(sym)
+        if not c:
+            return None
+        ps = c[0].params.strip()
+        if not ps or ps == "void":
+            return 0
+        depth, n = 0, 1
+        for ch in ps:
+            if ch in "({<":
+                depth += 1
+            elif ch in ")}>":
+                depth -= 1
+            elif ch == "," and depth == 0:
+                n += 1
+        return n
+    nrows = 0
+    for cls in ("EccPoint", "EccXPoint"):
+        cnode = repo.cls(mod, cls)
+        for cname in sorted(builders):
+            calls = []
+
+            def mk(op):
+                def f(i, a, kw, st, node, op=op):
+                    calls.append((op, len(a), getattr(node, "lineno", 0)))
+                    return 0
+                return f
+            OPS = ("new_point", "free_point", "clone", "cmp", "get_xy", "get_x", "double", "add", "scalar", "neg", "new_context", "free_context", "normalize", "copy")
+            it = Interp(repo, max_depth=4, extra_models=dict(("vstat.rawlib." + op, mk(op)) for op in OPS))
+            it.extra_models["Crypto.Random.random.getrandbits"] = lambda i, a, kw, st, node: 5
+            st = State()
+            lib = it.new_obj(st, label="rawlib", attrs=dict((op, ABuiltin("vstat.rawlib." + op)) for op in OPS if op in libs[cname]))
+            curve = it.new_obj(st, label="curve", attrs={"id": ids[cname], "p": (1 << 61) - 1, "b": 3, "order": (1 << 61) - 3, "modulus_bits": 61, "canonical": "C", "name": "C",
+                                                         "rawlib": lib, "context": it.new_obj(st, label="ctx"), "is_edwards": cname.startswith("ED"),
+                                                         "is_weierstrass": cname.startswith("P"), "is_montgomery": cname.startswith("CURVE")})
+            it.inject = {"_curves[curve]": curve}
+            it.method_models.update({"get": lambda i, base, a, kw, st, node: ("h", getattr(base, "ident", 0)), "address_of": lambda i, base, a, kw, st, node: ("a", getattr(base, "ident", 0))})
+            me = it.new_obj(st, mod, cnode, havoc=False)
+            args = {"x": 5, "y": 7, "curve": "C"} if cls == "EccPoint" else {"x": 5, "curve": "C"}
+            res = it.run(mod, repo.func(mod, cls + ".__init__"), args, self_obj=me, state=st)
+            nrows += 1
+            key = "F|rawlib.arity|%s|%s" % (cls, cname)
+            if not res.returns():
+                ok = not calls and set(res.raise_classes()) == {"ValueError"}
+                check.ob("F", key, ok, mod.path, cnode.lineno,
+                         extracted="%s on %s: refused with %s %s" % (cls, cname, ",".join(res.raise_classes()), "before any native call" if not calls else "after native calls %s" % calls[:2]),
+                         expected="a point class refuses the curves whose native library it cannot drive, with ValueError and before any native call")
+                continue
+            # admitted: the other methods on an object of this class and curve
+            cur = res.returns()[0].state
+            for meth, margs in (("set", "other"), ("__eq__", "other"), ("__neg__", None), ("xy", None), ("x", None), ("double", None), ("__iadd__", "other"), ("__imul__", 3), ("copy", None)):
+                r = repo.find_method(mod, cnode, meth)
+                if r is None:
+                    continue
+                s2 = cur.clone()
+                s2.frames = [{}]
+                a2 = {}
+                ps = params_of(r[1])[1:]
+                if margs == "other":
+                    a2[ps[0]] = me
+                elif margs is not None:
+                    a2[ps[0]] = margs
+                it.run(r[0], r[1], a2, self_obj=me, state=s2)
+            bad = []
+            for (op, n, line) in calls:
+                sym = libs[cname].get(op)
+                want = nparams(sym) if sym else None
+                if sym is None:
+                    bad.append("line %d calls rawlib.%s, which the %s library does not bind" % (line, op, cname))
+                elif want is None:
+                    raise AnalysisError("no C definition of %s" % sym)
+                elif n != want:
+                    bad.append("line %d calls %s with %d arguments, its prototype has %d" % (line, sym, n, want))
+            check.ob("F", key, not bad, mod.path, cnode.lineno,
+                     extracted=("%s on %s: " % (cls, cname) + "; ".join(sorted(set(bad))[:3])) if bad else "%s on %s: %d native calls (%s), each with the argument count of its prototype" % (
+                         cls, cname, len(calls), ",".join(sorted(set(c[0] for c in calls)))),
+                     expected="every native call of the point layer matches the prototype of the library of the object's curve")
+    check.count("point_class_curve_pairs", nrows)
 
 
 BYTES_PRODUCERS = ("long_to_bytes", "bytes", "tobytes", "bchr", "to_bytes", "join", "pack", "b", "get_random_bytes", "digest")
